@@ -11,8 +11,10 @@ from props import base
 from props.base import Context  # noqa: F401
 
 PID = 'C13'
-TIE_MODULES = ['DiffxVerif.Tie.Hunks', 'DiffxVerif.Tie.RegexHunks']
-NEEDS = ['hunks', 'dom', 'text', 're_hunks']
+TIE_MODULES = ['DiffxVerif.Tie.Hunks']
+NEEDS = ['hunks', 'dom', 'text']
+# a change of these pattern tables makes the check search with its escalated budget (no obligation)
+SOFT_PATTERNS = ['re_hunks']
 ASSUMPTIONS = [
     'diffs are assembled from generated hunks with known counts (harness/domgen.gen_hunk_diff); ground truth is by construction, independent of the hunk parser',
     'D15 classifier: the diff encoding maps "@ +-\\\\" to bytes other than their ASCII values (UTF-16/32, EBCDIC)',
@@ -64,6 +66,12 @@ def gen_stats_tree(rng):
                 expect = None
             elif kind < 0.4:
                 opts['type'] = 'text'
+            elif kind < 0.46:
+                # a text diff without any hunk (mode change, rename): analysed, zero lines changed
+                nl_ = '\r\n' if dos else '\n'
+                diff = rng.choice(['diff --git a/f b/f%sold mode 100644%snew mode 100755%s' % (nl_, nl_, nl_),
+                                   'rename from a%srename to b%s' % (nl_, nl_), 'Only in b: f%s' % nl_]).encode(enc or 'ascii')
+                expect = (0, 0)
             meta = rng.choice([{}, {'path': 'f'}, {'stats': {'insertions': 41, 'custom': [1, 2]}, 'path': 'g'},
                                {'stats': {'lines changed': 5, 'deletions': 2, 'insertions': 3}},
                                # custom *integer* keys on a child: they stay where they are and are
